@@ -524,7 +524,9 @@ class LocalEngine(BaseEngine):
             Result: results of the computation
         """
         args = args or {}
-        compile_options = compile_options or {}
+        # copy: the segment loop adds the backend's default compiler to the options, which
+        # must not leak into the caller's dictionary (it may be reused with another engine)
+        compile_options = dict(compile_options or {})
         temp_run_options = {}
 
         if isinstance(program, collections.abc.Sequence):
